@@ -18,7 +18,7 @@ src: conf.c
 tier: B
 bound: input <= 8 characters over {a, space, ~, ', "}; HOME unset, empty or "/h"; line-buffer limit CONFIG_BUFF scaled to 32 bytes (stated re-binding)
 unwind: 10
-flags: --unwindset strlen.0:20,strcpy.0:20,vb_a.0:20,spiftool_safe_strncpy.0:12,mk_str.0:6,strncasecmp.0:3,spifconf_shell_expand:0,spifconf_shell_expand.7:2,spifconf_shell_expand.10:1,spifconf_shell_expand.15:1,spifconf_shell_expand.21:1,spifconf_shell_expand.22:1,spifconf_shell_expand.23:1,spifconf_shell_expand.28:9,harness.1:42
+flags: --unwindset strlen.0:20,strcpy.0:20,vb_a.0:20,spiftool_safe_strncpy.0:12,mk_str.0:6,strncasecmp.0:3,spifconf_shell_expand:0,spifconf_shell_expand.7:2,spifconf_shell_expand.10:1,spifconf_shell_expand.15:1,spifconf_shell_expand.21:1,spifconf_shell_expand.22:1,spifconf_shell_expand.23:1,spifconf_shell_expand.28:9,check_exact.0:10,check_exact.1:42
 objbits: 10
 backend: sat
 timeout: 600
@@ -32,7 +32,7 @@ src: conf.c
 tier: B
 bound: input <= 8 characters over {a, space, backslash, ', "} that does not end in a backslash; line-buffer limit CONFIG_BUFF scaled to 32 bytes (stated re-binding)
 unwind: 10
-flags: --unwindset strlen.0:12,strcpy.0:12,vb_a.0:12,spiftool_safe_strncpy.0:12,mk_str.0:6,strncasecmp.0:3,spifconf_shell_expand:0,spifconf_shell_expand.7:2,spifconf_shell_expand.10:1,spifconf_shell_expand.15:1,spifconf_shell_expand.21:1,spifconf_shell_expand.22:1,spifconf_shell_expand.23:1,spifconf_shell_expand.28:9,harness.1:42
+flags: --unwindset strlen.0:12,strcpy.0:12,vb_a.0:12,spiftool_safe_strncpy.0:12,mk_str.0:6,strncasecmp.0:3,spifconf_shell_expand:0,spifconf_shell_expand.7:2,spifconf_shell_expand.10:1,spifconf_shell_expand.15:1,spifconf_shell_expand.21:1,spifconf_shell_expand.22:1,spifconf_shell_expand.23:1,spifconf_shell_expand.28:9,check_exact.0:10,check_exact.1:42
 objbits: 10
 backend: sat
 timeout: 600
@@ -46,7 +46,7 @@ src: conf.c
 tier: B
 bound: input <= 8 characters over {a, space, backslash, ', "} that ends in a backslash; line-buffer limit CONFIG_BUFF scaled to 32 bytes (stated re-binding)
 unwind: 10
-flags: --unwindset strlen.0:12,strcpy.0:12,vb_a.0:12,spiftool_safe_strncpy.0:12,mk_str.0:6,strncasecmp.0:3,spifconf_shell_expand:0,spifconf_shell_expand.7:2,spifconf_shell_expand.10:1,spifconf_shell_expand.15:1,spifconf_shell_expand.21:1,spifconf_shell_expand.22:1,spifconf_shell_expand.23:1,spifconf_shell_expand.28:9,harness.1:42
+flags: --unwindset strlen.0:12,strcpy.0:12,vb_a.0:12,spiftool_safe_strncpy.0:12,mk_str.0:6,strncasecmp.0:3,spifconf_shell_expand:0,spifconf_shell_expand.7:2,spifconf_shell_expand.10:1,spifconf_shell_expand.15:1,spifconf_shell_expand.21:1,spifconf_shell_expand.22:1,spifconf_shell_expand.23:1,spifconf_shell_expand.28:9,check_exact.0:10,check_exact.1:42
 objbits: 10
 backend: sat
 timeout: 600
@@ -60,7 +60,7 @@ src: conf.c
 tier: B
 bound: input <= 8 characters over {a, space, $, ', "}, every $ followed by a name; $a set to "V"; line-buffer limit CONFIG_BUFF scaled to 32 bytes (stated re-binding)
 unwind: 10
-flags: --unwindset strlen.0:14,strcpy.0:14,vb_a.0:14,spiftool_safe_strncpy.0:12,mk_str.0:6,strncasecmp.0:3,spifconf_shell_expand:0,spifconf_shell_expand.7:2,spifconf_shell_expand.10:1,spifconf_shell_expand.15:1,spifconf_shell_expand.21:8,spifconf_shell_expand.22:8,spifconf_shell_expand.23:8,spifconf_shell_expand.28:9,harness.1:42
+flags: --unwindset strlen.0:14,strcpy.0:14,vb_a.0:14,spiftool_safe_strncpy.0:12,mk_str.0:6,strncasecmp.0:3,spifconf_shell_expand:0,spifconf_shell_expand.7:2,spifconf_shell_expand.10:1,spifconf_shell_expand.15:1,spifconf_shell_expand.21:8,spifconf_shell_expand.22:8,spifconf_shell_expand.23:8,spifconf_shell_expand.28:9,check_exact.0:10,check_exact.1:42
 objbits: 10
 backend: sat
 timeout: 600
@@ -74,7 +74,7 @@ src: conf.c
 tier: B
 bound: input <= 8 characters over {a, space, $, ', "}, every $ followed by a name; $a unset or empty; line-buffer limit CONFIG_BUFF scaled to 32 bytes (stated re-binding)
 unwind: 10
-flags: --unwindset strlen.0:12,strcpy.0:12,vb_a.0:12,spiftool_safe_strncpy.0:12,mk_str.0:6,strncasecmp.0:3,spifconf_shell_expand:0,spifconf_shell_expand.7:2,spifconf_shell_expand.10:1,spifconf_shell_expand.15:1,spifconf_shell_expand.21:8,spifconf_shell_expand.22:8,spifconf_shell_expand.23:8,spifconf_shell_expand.28:9,harness.1:42
+flags: --unwindset strlen.0:12,strcpy.0:12,vb_a.0:12,spiftool_safe_strncpy.0:12,mk_str.0:6,strncasecmp.0:3,spifconf_shell_expand:0,spifconf_shell_expand.7:2,spifconf_shell_expand.10:1,spifconf_shell_expand.15:1,spifconf_shell_expand.21:8,spifconf_shell_expand.22:8,spifconf_shell_expand.23:8,spifconf_shell_expand.28:9,check_exact.0:10,check_exact.1:42
 objbits: 10
 backend: sat
 timeout: 600
@@ -88,7 +88,7 @@ src: conf.c
 tier: B
 bound: input <= 8 characters over {a, $, {, }, (, )}, every ${ and $( closed and named; $a unset, empty or "V"; line-buffer limit CONFIG_BUFF scaled to 32 bytes (stated re-binding)
 unwind: 10
-flags: --unwindset strlen.0:14,strcpy.0:14,vb_a.0:14,spiftool_safe_strncpy.0:12,mk_str.0:6,strncasecmp.0:3,spifconf_shell_expand:0,spifconf_shell_expand.7:2,spifconf_shell_expand.10:1,spifconf_shell_expand.15:1,spifconf_shell_expand.21:8,spifconf_shell_expand.22:8,spifconf_shell_expand.23:8,spifconf_shell_expand.28:9,harness.1:42
+flags: --unwindset strlen.0:14,strcpy.0:14,vb_a.0:14,spiftool_safe_strncpy.0:12,mk_str.0:6,strncasecmp.0:3,spifconf_shell_expand:0,spifconf_shell_expand.7:2,spifconf_shell_expand.10:1,spifconf_shell_expand.15:1,spifconf_shell_expand.21:8,spifconf_shell_expand.22:8,spifconf_shell_expand.23:8,spifconf_shell_expand.28:9,check_exact.0:10,check_exact.1:42
 objbits: 10
 backend: sat
 timeout: 600
@@ -102,7 +102,7 @@ src: conf.c
 tier: B
 bound: input <= 6 characters over {a, space, $} with a $ that names nothing; line-buffer limit CONFIG_BUFF scaled to 32 bytes (stated re-binding)
 unwind: 8
-flags: --unwindset strlen.0:12,strcpy.0:12,vb_a.0:12,spiftool_safe_strncpy.0:12,mk_str.0:6,strncasecmp.0:3,spifconf_shell_expand:0,spifconf_shell_expand.7:2,spifconf_shell_expand.10:1,spifconf_shell_expand.15:1,spifconf_shell_expand.21:6,spifconf_shell_expand.22:6,spifconf_shell_expand.23:6,spifconf_shell_expand.28:7,harness.1:42
+flags: --unwindset strlen.0:12,strcpy.0:12,vb_a.0:12,spiftool_safe_strncpy.0:12,mk_str.0:6,strncasecmp.0:3,spifconf_shell_expand:0,spifconf_shell_expand.7:2,spifconf_shell_expand.10:1,spifconf_shell_expand.15:1,spifconf_shell_expand.21:6,spifconf_shell_expand.22:6,spifconf_shell_expand.23:6,spifconf_shell_expand.28:7,check_exact.0:8,check_exact.1:42
 objbits: 10
 backend: sat
 timeout: 600
@@ -116,7 +116,7 @@ src: conf.c
 tier: B
 bound: inputs of the shape ?%a()? -- each ? any of {a, space, %, (, )} -- in which every % starts a balanced call; line-buffer limit CONFIG_BUFF scaled to 32 bytes (stated re-binding)
 unwind: 8
-flags: --unwindset strlen.0:16,strcpy.0:16,vb_a.0:16,spiftool_safe_strncpy.0:12,mk_str.0:6,strncasecmp.0:3,spifconf_shell_expand:1,spifconf_shell_expand.7:2,spifconf_shell_expand.10:6,spifconf_shell_expand.15:1,spifconf_shell_expand.21:1,spifconf_shell_expand.22:1,spifconf_shell_expand.23:1,spifconf_shell_expand.28:7,harness.1:42
+flags: --unwindset strlen.0:16,strcpy.0:16,vb_a.0:16,spiftool_safe_strncpy.0:12,mk_str.0:6,strncasecmp.0:3,spifconf_shell_expand:1,spifconf_shell_expand.7:2,spifconf_shell_expand.10:6,spifconf_shell_expand.15:1,spifconf_shell_expand.21:1,spifconf_shell_expand.22:1,spifconf_shell_expand.23:1,spifconf_shell_expand.28:7,check_exact.0:8,check_exact.1:42
 objbits: 10
 backend: sat
 timeout: 600
@@ -130,7 +130,7 @@ src: conf.c
 tier: B
 bound: inputs of the shape ??%a(a) -- each ? any of {a, space, %, (, )} -- in which every % starts a balanced call; line-buffer limit CONFIG_BUFF scaled to 32 bytes (stated re-binding)
 unwind: 9
-flags: --unwindset strlen.0:16,strcpy.0:16,vb_a.0:16,spiftool_safe_strncpy.0:12,mk_str.0:6,strncasecmp.0:3,spifconf_shell_expand:1,spifconf_shell_expand.7:2,spifconf_shell_expand.10:7,spifconf_shell_expand.15:1,spifconf_shell_expand.21:1,spifconf_shell_expand.22:1,spifconf_shell_expand.23:1,spifconf_shell_expand.28:8,harness.1:42
+flags: --unwindset strlen.0:16,strcpy.0:16,vb_a.0:16,spiftool_safe_strncpy.0:12,mk_str.0:6,strncasecmp.0:3,spifconf_shell_expand:1,spifconf_shell_expand.7:2,spifconf_shell_expand.10:7,spifconf_shell_expand.15:1,spifconf_shell_expand.21:1,spifconf_shell_expand.22:1,spifconf_shell_expand.23:1,spifconf_shell_expand.28:8,check_exact.0:9,check_exact.1:42
 objbits: 10
 backend: sat
 timeout: 600
@@ -144,7 +144,7 @@ src: conf.c
 tier: B
 bound: inputs of the shape %a(a)?? -- each ? any of {a, space, %, (, )} -- in which every % starts a balanced call; line-buffer limit CONFIG_BUFF scaled to 32 bytes (stated re-binding)
 unwind: 9
-flags: --unwindset strlen.0:16,strcpy.0:16,vb_a.0:16,spiftool_safe_strncpy.0:12,mk_str.0:6,strncasecmp.0:3,spifconf_shell_expand:1,spifconf_shell_expand.7:2,spifconf_shell_expand.10:7,spifconf_shell_expand.15:1,spifconf_shell_expand.21:1,spifconf_shell_expand.22:1,spifconf_shell_expand.23:1,spifconf_shell_expand.28:8,harness.1:42
+flags: --unwindset strlen.0:16,strcpy.0:16,vb_a.0:16,spiftool_safe_strncpy.0:12,mk_str.0:6,strncasecmp.0:3,spifconf_shell_expand:1,spifconf_shell_expand.7:2,spifconf_shell_expand.10:7,spifconf_shell_expand.15:1,spifconf_shell_expand.21:1,spifconf_shell_expand.22:1,spifconf_shell_expand.23:1,spifconf_shell_expand.28:8,check_exact.0:9,check_exact.1:42
 objbits: 10
 backend: sat
 timeout: 600
@@ -158,7 +158,7 @@ src: conf.c
 tier: B
 bound: inputs of the shape ?%a(~)? -- each ? any of {a, space, ~, ', "}: a call inside quotes; line-buffer limit CONFIG_BUFF scaled to 32 bytes (stated re-binding)
 unwind: 9
-flags: --unwindset strlen.0:24,strcpy.0:24,vb_a.0:24,spiftool_safe_strncpy.0:12,mk_str.0:6,strncasecmp.0:3,spifconf_shell_expand:1,spifconf_shell_expand.7:2,spifconf_shell_expand.10:7,spifconf_shell_expand.15:1,spifconf_shell_expand.21:1,spifconf_shell_expand.22:1,spifconf_shell_expand.23:1,spifconf_shell_expand.28:8,harness.1:42
+flags: --unwindset strlen.0:24,strcpy.0:24,vb_a.0:24,spiftool_safe_strncpy.0:12,mk_str.0:6,strncasecmp.0:3,spifconf_shell_expand:1,spifconf_shell_expand.7:2,spifconf_shell_expand.10:7,spifconf_shell_expand.15:1,spifconf_shell_expand.21:1,spifconf_shell_expand.22:1,spifconf_shell_expand.23:1,spifconf_shell_expand.28:8,check_exact.0:9,check_exact.1:42
 objbits: 10
 backend: sat
 timeout: 600
@@ -185,20 +185,6 @@ define: U_CASES, CASESET=2, A_SPACE, A_PCT, A_PAREN, D_FLAGS=RF_LONEPCT, NMAX=14
 src: conf.c
 tier: B
 bound: 6 concrete inputs with a % that starts no call, not at the end of the input; line-buffer limit CONFIG_BUFF scaled to 32 bytes (stated re-binding)
-unwind: 16
-flags: --unwindset strlen.0:26,strcpy.0:26,vb_a.0:26,spiftool_safe_strncpy.0:12,mk_str.0:6,strncasecmp.0:3,spifconf_shell_expand:3,spifconf_shell_expand.7:2,spifconf_shell_expand.10:14,spifconf_shell_expand.15:1,spifconf_shell_expand.21:1,spifconf_shell_expand.22:1,spifconf_shell_expand.23:1,spifconf_shell_expand.28:15,harness.0:20,harness.1:16,harness.2:20,check_exact.0:16,check_exact.1:42
-objbits: 10
-backend: sat
-timeout: 600
-quick: yes
-funcs: spifconf_shell_expand
-*/
-/*@unit
-name: exact_call_trailing_pct
-define: U_CASES, CASESET=3, A_SPACE, A_PCT, A_PAREN, D_FLAGS=RF_LONEPCT, NMAX=14, BUFF=32, VERIF_EXACT_LIBC, VERIF_OWN_STRLEN, VERIF_OWN_STRCMP, VERIF_OWN_STRDUP, VERIF_OWN_STRCHR
-src: conf.c
-tier: B
-bound: 3 concrete inputs that end in %; line-buffer limit CONFIG_BUFF scaled to 32 bytes (stated re-binding)
 unwind: 16
 flags: --unwindset strlen.0:26,strcpy.0:26,vb_a.0:26,spiftool_safe_strncpy.0:12,mk_str.0:6,strncasecmp.0:3,spifconf_shell_expand:3,spifconf_shell_expand.7:2,spifconf_shell_expand.10:14,spifconf_shell_expand.15:1,spifconf_shell_expand.21:1,spifconf_shell_expand.22:1,spifconf_shell_expand.23:1,spifconf_shell_expand.28:15,harness.0:20,harness.1:16,harness.2:20,check_exact.0:16,check_exact.1:42
 objbits: 10
@@ -237,16 +223,17 @@ funcs: spifconf_shell_expand
 */
 /*@unit
 name: reads_dollar
-define: U_READS, VB_NOGROW, A_DOLLAR, A_BRACE, A_PAREN, NMAX=6, BUFF=32, VERIF_EXACT_LIBC, VERIF_OWN_STRLEN, VERIF_OWN_STRCMP, VERIF_OWN_STRDUP, VERIF_OWN_STRCHR
+define: U_READS, VB_NOGROW, A_DOLLAR, A_BRACE, A_PAREN, NMAX=5, BUFF=32, VERIF_EXACT_LIBC, VERIF_OWN_STRLEN, VERIF_OWN_STRCMP, VERIF_OWN_STRDUP, VERIF_OWN_STRCHR
 src: conf.c
 tier: B
-bound: input <= 6 characters over {a, $, {, }, (, )} in a block of exactly strlen+1 bytes; $a unset or empty; line-buffer limit CONFIG_BUFF scaled to 32 bytes (stated re-binding)
-unwind: 8
-flags: --unwindset strlen.0:10,strcpy.0:10,vb_a.0:10,spiftool_safe_strncpy.0:12,mk_str.0:6,strncasecmp.0:3,spifconf_shell_expand:0,spifconf_shell_expand.7:2,spifconf_shell_expand.10:1,spifconf_shell_expand.15:1,spifconf_shell_expand.21:6,spifconf_shell_expand.22:6,spifconf_shell_expand.23:6,spifconf_shell_expand.28:7
+bound: input <= 5 characters over {a, $, {, }, (, )} in a block of exactly strlen+1 bytes; $a unset or empty; line-buffer limit CONFIG_BUFF scaled to 32 bytes (stated re-binding)
+unwind: 7
+flags: --unwindset strlen.0:10,strcpy.0:10,vb_a.0:10,spiftool_safe_strncpy.0:12,mk_str.0:6,strncasecmp.0:3,spifconf_shell_expand:0,spifconf_shell_expand.7:2,spifconf_shell_expand.10:1,spifconf_shell_expand.15:1,spifconf_shell_expand.21:5,spifconf_shell_expand.22:5,spifconf_shell_expand.23:5,spifconf_shell_expand.28:6
 objbits: 10
 backend: sat
 timeout: 600
 quick: yes
+mem: 12
 funcs: spifconf_shell_expand
 */
 /*@unit
